@@ -40,9 +40,33 @@ from ..ast.fpyast import (
     UnderscoreId,
     Var,
 )
-from ..ast.visitor import DefaultTransformVisitor
+from ..ast.visitor import DefaultTransformVisitor, DefaultVisitor
 from ..utils import Id
 from .utils import clone
+
+
+class _MutationScan(DefaultVisitor):
+    """Whether a piece of program writes a list in place itself (an indexed
+    assignment).  A write by a callee is not seen."""
+
+    def __init__(self):
+        self.found = False
+
+    def _visit_indexed_assign(self, stmt, ctx):
+        self.found = True
+
+
+def may_mutate(node) -> bool:
+    """`zip` / `enumerate` snapshot their sources; indexing the sources directly
+    reads them live.  The two agree only while nothing writes a list between
+    the snapshot and the read, so a loop body or element that may write one is
+    left for the backend to materialize."""
+    scan = _MutationScan()
+    if isinstance(node, Expr):
+        scan._visit_expr(node, None)
+    else:
+        scan._visit_block(node, None)
+    return scan.found
 
 
 @dataclasses.dataclass
